@@ -212,6 +212,28 @@ def replay_behaviour(pool, calls, tid):
             if a.get("k") != b.get("k") or a.get("repr") != b.get("repr"):
                 probe_ok = False
                 bad_probe = {"node": i + 1, "point": pool["points"][pi], "used_object": a, "fresh_copy": b}
+    # ... and every live derivative object still answers like a freshly built one of the same kind (up to rounding: a late
+    # object that was switched to its symbolic path is compared with a fresh late one)
+    S = ses.S
+    for key, d in list(ses.live.items()):
+        kind, r = key[0], key[1]
+        robj = ses.objs[r - 1]
+        pts_ok = [pi for pi in range(min(2, len(ses.pts))) if set(gen.heap_vars(pool["heap"], r)) <= set(pool["points"][pi])]
+        for pi in pts_ok:
+            pt = ses.pts[pi]
+            if kind == "P":
+                a = J.outcome_of(lambda: d.at(pt)); b = J.outcome_of(lambda: S.Partial(robj, key[2], compute_early=key[3]).at(pt))
+            elif kind == "D":
+                a = J.outcome_of(lambda: d.at(pt)); b = J.outcome_of(lambda: S.Derivative(robj, compute_early=key[2]).at(pt))
+            else:
+                vq = pool["vars"][0]
+                a = J.outcome_of(lambda: d.at(pt).component(vq)); b = J.outcome_of(lambda: S.Differential(robj, compute_early=key[2]).at(pt).component(vq))
+            same = a.get("k") == b.get("k") and (a["k"] not in NUMK or abs(float(a["repr"]) - float(b["repr"])) <= 1e-9 * max(1.0, abs(float(b["repr"]))))
+            if a.get("k") in NUMK and b.get("k") in NUMK:
+                same = abs(float(a["repr"]) - float(b["repr"])) <= 1e-9 * max(1.0, abs(float(b["repr"])))
+            if not same and not (kind != "F" and not key[-1] and a.get("k") != b.get("k") and False):
+                probe_ok = False
+                bad_probe = {"live_object": str(key), "point": pool["points"][pi], "used_object": a, "fresh_object": b}
     t["probe_ok"] = probe_ok
     t["bad_probe"] = bad_probe or {"node": 0}
     return t
